@@ -1305,3 +1305,413 @@ Example C16_accepted_config_example :
                            mkF 3 false (CmElems [ElemVals [Some 0; Some 2]]) 2 false false false []])
           LatRtl (Some 2) true [true] 1 false false true) = true.
 Proof. exact config_accepted_example. Qed.
+
+(* ========================================================================== *)
+(* "accepted => total": no silent totalisation.                                 *)
+(*                                                                              *)
+(* The Gallina models of weight projection and evaluation are total by          *)
+(* construction (x / 0 = 0 in Q, nth out of range returns its default, map2     *)
+(* truncates), so a ZeroDivisionError, a NaN or an out-of-range gather of the    *)
+(* code would be invisible to the theorems about them.  The theorems below       *)
+(* (Proofs/TotalityFacts.v) show, site by site, that for ACCEPTED                *)
+(* configurations the totalised cases are never used - every denominator of the  *)
+(* models is non-zero (or is the code's own guard), every index in range - and   *)
+(* exhibit the accepted configurations for which they are (`_refuted`, with the  *)
+(* known-finding id).  `_site` theorems tie the named denominator to the model:  *)
+(* the model function IS "numerator / that denominator".  Finite results of the  *)
+(* float code beyond this (overflow, underflow) are tested only.                 *)
+(* ========================================================================== *)
+From TFL Require Import Base.QNum Base.Lists Base.Tensor Proofs.TotalityFacts.
+Local Open Scope Q_scope.
+
+(* ---- Linear: linear_lib.project -------------------------------------------- *)
+(* `weights /= scalings`: no scaling is ever 0, for any configuration (a range is
+   used only `if upper > lower`) *)
+Theorem C16_total_linear_scalings_nonzero : forall ms los his,
+  Forall (fun s => ~ s == 0) (Model.LinearProject.scalings ms los his).
+Proof. exact linear_scalings_nonzero. Qed.
+Print Assumptions C16_total_linear_scalings_nonzero.
+(* the division site of the model *)
+Theorem C16_total_linear_rdom_division_site : forall rt c w,
+  Model.LinearProject.lc_mdom c = [] -> Model.LinearProject.lc_rdom c <> [] ->
+  Model.LinearProject.lin_project_col rt c w =
+  match PartialOrder.po_project (Model.LinearProject.swap_pairs (Model.LinearProject.lc_rdom c))
+          (map2 Qmult (Model.LinearProject.sign_clip (Model.LinearProject.lc_monos c) w)
+             (Model.LinearProject.scalings (Model.LinearProject.lc_monos c) (Model.LinearProject.lc_min c)
+                (Model.LinearProject.lc_max c))) with
+  | Some p => Some (Model.LinearProject.normalize rt (Model.LinearProject.lc_norm c)
+                      (map2 (fun x s => Qred (x / s)) p
+                         (Model.LinearProject.scalings (Model.LinearProject.lc_monos c) (Model.LinearProject.lc_min c)
+                            (Model.LinearProject.lc_max c))))
+  | None => None
+  end.
+Proof. exact lin_rdom_site. Qed.
+Print Assumptions C16_total_linear_rdom_division_site.
+(* accepted: non-zero, and as many scalings as weights (no map2 truncation) when input_min / input_max
+   have the length of the monotonicities *)
+Theorem C16_total_linear_accepted_scalings : forall c m norm,
+  accepts_linear c = true -> n_monos c = Some m ->
+  let lc := conv_linear c norm in
+  Forall (fun s => ~ s == 0)
+    (Model.LinearProject.scalings (Model.LinearProject.lc_monos lc) (Model.LinearProject.lc_min lc) (Model.LinearProject.lc_max lc)) /\
+  (List.length (olist (n_imin c)) = List.length m -> List.length (olist (n_imax c)) = List.length m ->
+   List.length (Model.LinearProject.scalings (Model.LinearProject.lc_monos lc) (Model.LinearProject.lc_min lc)
+                  (Model.LinearProject.lc_max lc)) = List.length m).
+Proof. exact linear_accepted_scalings. Qed.
+Print Assumptions C16_total_linear_accepted_scalings.
+(* as is (known finding D45): shorter input_min / input_max are accepted; the model would silently
+   truncate, the projection raises *)
+Theorem C16_total_linear_scalings_length_refuted : exists c m,
+  accepts_linear c = true /\ n_monos c = Some m /\
+  (List.length (Model.LinearProject.scalings m (olist (n_imin c)) (olist (n_imax c))) < List.length m)%nat.
+Proof. exact linear_short_bounds_accepted. Qed.
+Print Assumptions C16_total_linear_scalings_length_refuted.
+(* `weights / norm` with the code's guard `norm = tf.where(norm < 1e-8, 1.0, norm)` *)
+Theorem C16_total_linear_norm_division_site : forall rt k w,
+  Model.LinearProject.normalize rt (S k) w = map (fun x => Qred (x / lin_norm_den rt (S k) w)) w /\
+  lin_norm_den rt (S k) w =
+    (let n := Model.LinearProject.col_norm rt (S k) w in if qlt n Model.LinearProject.norm_eps then 1 else n).
+Proof. intros rt k w. split; [exact (lin_normalize_site rt k w)|reflexivity]. Qed.
+Print Assumptions C16_total_linear_norm_division_site.
+Theorem C16_total_linear_norm_denominator_nonzero : forall rt order w,
+  (1 # 100000000) <= lin_norm_den rt order w /\ ~ lin_norm_den rt order w == 0.
+Proof. intros rt order w. split; [exact (lin_norm_den_ge_eps rt order w)|exact (lin_norm_den_nonzero rt order w)]. Qed.
+Print Assumptions C16_total_linear_norm_denominator_nonzero.
+
+(* ---- PWLCalibration: projection --------------------------------------------- *)
+(* `/ num_heights`, `/ (num_heights + 1)` of the monotone bounds projection: every heights vector the
+   Dykstra loop hands to it has n >= 1 entries *)
+Theorem C16_total_pwl_bounds_denominators_nonzero : forall c n b h k,
+  Proofs.PWLProject.pwl_valid c n -> List.length h = n ->
+  let st := Model.PWLProject.dyk_iter c k (Model.PWLProject.dyk_init b h) in
+  List.length (Proofs.PWLProject.bnd_rh st) = n /\
+  List.length (Model.PWLProject.qneg_list (Proofs.PWLProject.bnd_rh st)) = n /\
+  ~ Model.PWLProject.qn (List.length (Proofs.PWLProject.bnd_rh st)) == 0 /\
+  ~ Model.PWLProject.qn (List.length (Proofs.PWLProject.bnd_rh st)) + 1 == 0.
+Proof. exact pwl_dykstra_bounds_dens_nonzero. Qed.
+Print Assumptions C16_total_pwl_bounds_denominators_nonzero.
+(* `(h0 + h1) / (l0 + l1)` of _project_convexity and `lengths[i] / lengths[i-1]` of
+   _approximately_project_convexity, and the two above, for an accepted configuration:
+   the lengths are the keypoint gaps *)
+Theorem C16_total_pwl_projection_denominators : forall c ks clamp_min clamp_max iters conv g hs,
+  accepts_pwl c = true -> p_keypoints c = Some ks ->
+  let pc := conv_pwl c ks clamp_min clamp_max iters in
+  Forall (fun d => 0 < d) (project_convexity_dens conv g hs (Model.PWLProject.p_lengths pc)) /\
+  Forall (fun d => 0 < d) (approx_convexity_dens conv hs (Model.PWLProject.p_lengths pc)) /\
+  (List.length hs = (List.length ks - 1)%nat ->
+   ~ Model.PWLProject.qn (List.length hs) == 0 /\ ~ Model.PWLProject.qn (List.length hs) + 1 == 0).
+Proof. exact accepted_pwl_projection_dens. Qed.
+Print Assumptions C16_total_pwl_projection_denominators.
+(* _squeeze_by_scaling: `sum(heights) / delta` only under the code's own guard delta > 0.001, then
+   `heights / max(scaling_factor, 1)` *)
+Theorem C16_total_pwl_squeeze_division_site : forall bias heights omax cmax,
+  cmax <> Model.PWLProject.BNone ->
+  Model.PWLProject.squeeze_inc bias heights omax cmax =
+  (bias, map (fun h => Qred (h / qmax (squeeze_sf bias heights omax) 1)) heights) /\
+  squeeze_sf bias heights omax =
+    (let delta := omax - bias in if qlt (1 # 1000) delta then qsum heights / delta else 1).
+Proof. intros bias heights omax cmax H. split; [exact (squeeze_inc_site bias heights omax cmax H)|reflexivity]. Qed.
+Print Assumptions C16_total_pwl_squeeze_division_site.
+Theorem C16_total_pwl_squeeze_denominators_nonzero : forall bias heights omax,
+  (qlt (1 # 1000) (omax - bias) = true -> ~ omax - bias == 0) /\
+  ~ qmax (squeeze_sf bias heights omax) 1 == 0.
+Proof. intros bias heights omax. split; [exact (squeeze_guarded_den_nonzero bias omax)|exact (squeeze_den_nonzero bias heights omax)]. Qed.
+Print Assumptions C16_total_pwl_squeeze_denominators_nonzero.
+
+(* ---- PWLCalibration: evaluation ---------------------------------------------- *)
+(* `(inputs - keypoints) / lengths`, fixed keypoints: every gap > 0, keypoint and length tables of
+   equal length, exactly len(input_keypoints) interpolation weights (one per kernel row) *)
+Theorem C16_total_pwl_eval_fixed_keypoints : forall c ks x,
+  accepts_pwl c = true -> p_keypoints c = Some ks ->
+  Forall (fun l => 0 < l) (pwl_interp_dens (Model.PWLEval.kp_lefts ks) (Model.PWLEval.kp_diffs ks)) /\
+  List.length (Model.PWLEval.kp_diffs ks) = List.length (Model.PWLEval.kp_lefts ks) /\
+  List.length (Model.PWLEval.interpolation_weights x (Model.PWLEval.kp_lefts ks) (Model.PWLEval.kp_diffs ks)) = List.length ks.
+Proof. exact accepted_pwl_eval_fixed. Qed.
+Print Assumptions C16_total_pwl_eval_fixed_keypoints.
+Theorem C16_total_pwl_eval_division_site : forall x k kps l lens,
+  Model.PWLEval.interp_w x (k :: kps) (l :: lens) = qmax (qmin ((x - k) / l) 1) 0 :: Model.PWLEval.interp_w x kps lens.
+Proof. exact pwl_interp_w_site. Qed.
+Print Assumptions C16_total_pwl_eval_division_site.
+(* learned_interior keypoints: lengths = softmax * keypoint range, > 0 when every softmax entry is
+   (true of the exact softmax) *)
+Theorem C16_total_pwl_eval_learned_keypoints : forall c ks sm,
+  accepts_pwl c = true -> p_keypoints c = Some ks -> Forall (fun s => 0 < s) sm ->
+  Forall (fun l => 0 < l) (Model.PWLEval.learned_lengths ks sm) /\
+  List.length (Model.PWLEval.learned_lefts ks sm) = List.length (Model.PWLEval.learned_lengths ks sm).
+Proof. exact accepted_pwl_eval_learned. Qed.
+Print Assumptions C16_total_pwl_eval_learned_keypoints.
+(* a softmax entry that is exactly 0 - float underflow of exp for finite logits - is a zero length:
+   the code then returns NaN at the keypoint (0 / 0); not excluded by any check *)
+Theorem C16_total_pwl_eval_learned_zero_softmax_refuted : forall ks,
+  nth 1 (Model.PWLEval.learned_lengths ks [1; 0]) 1 == 0.
+Proof. exact pwl_eval_learned_underflow_zero_length. Qed.
+Print Assumptions C16_total_pwl_eval_learned_zero_softmax_refuted.
+(* call(): the per-unit input column index is in range whenever call() does not raise *)
+Theorem C16_total_pwl_call_column_index_in_range : forall L as_list inputs is_missing out,
+  Model.PWLEval.pwl_call L as_list inputs is_missing = Some out ->
+  forall row u, In row inputs -> (u < Model.PWLEval.p_units L)%nat ->
+  ((if (List.length row =? 1)%nat then 0 else u) < List.length row)%nat.
+Proof. exact pwl_call_column_index_in_range. Qed.
+Print Assumptions C16_total_pwl_call_column_index_in_range.
+
+(* ---- KroneckerFactoredLattice ------------------------------------------------ *)
+Theorem C16_total_kfl_division_sites : forall root clip L su ku b xs lo hi vs,
+  Model.KFL.unit_eval clip L su ku b xs =
+    qsum (map2 (Model.KFL.term_out L (map (Model.KFL.clip_in clip L) xs)) su ku) /
+      kfl_mean_den L (map (Model.KFL.clip_in clip L) xs) su ku + b /\
+  Model.KFL.project_bounds_term root (Some lo) (Some hi) vs = map (map (fun w => w / kfl_bounds_den root vs)) vs.
+Proof. intros. split; [apply kfl_unit_eval_site|apply kfl_project_bounds_site]. Qed.
+Print Assumptions C16_total_kfl_division_sites.
+(* accepted, >= 1 input dimension, >= 1 term, kernel / scale of the layer's shapes: the mean over the
+   terms and `weights / pow(max(prod, 1), 1 / dims)` (for every root function with root_ok) divide by
+   non-zero numbers *)
+Theorem C16_total_kfl_denominators_nonzero : forall c root L xs su ku vs,
+  accepts_kfl c = true -> (1 <= k_dims c)%Z -> (1 <= k_terms c)%Z -> Proofs.KFL.root_ok root ->
+  List.length su = Z.to_nat (k_terms c) -> List.length ku = Z.to_nat (k_terms c) -> List.length vs = Z.to_nat (k_dims c) ->
+  ~ kfl_mean_den L xs su ku == 0 /\ ~ kfl_bounds_den root vs == 0.
+Proof. exact accepted_kfl_dens_nonzero. Qed.
+Print Assumptions C16_total_kfl_denominators_nonzero.
+(* as is (known finding D48): num_terms = 0 is accepted; the mean over the terms is 0 / 0 *)
+Theorem C16_total_kfl_zero_terms_refuted : exists c, accepts_kfl c = true /\ k_terms c = 0%Z /\
+  k_size c <> 0%Z /\ (1 <= k_dims c)%Z /\ (1 <= k_units c)%Z /\
+  forall L xs su ku, List.length su = Z.to_nat (k_terms c) -> List.length ku = Z.to_nat (k_terms c) ->
+                     kfl_mean_den L xs su ku == 0.
+Proof. exact kfl_zero_terms_accepted_zero_den. Qed.
+Print Assumptions C16_total_kfl_zero_terms_refuted.
+
+(* ---- Lattice ------------------------------------------------------------------ *)
+(* _approximately_project_bounds: `(max - min) / ((max + max_violation) - (min - min_violation))` *)
+Theorem C16_total_lattice_bounds_division_site : forall sh ud units lo hi W,
+  Model.LatticeFinalize.approx_bounds sh ud units (Some lo) (Some hi) W =
+  memo sh (fun x => let u := nth ud x 0%nat in
+                    Qred ((W x + (nth u (lat_bounds_minv sh ud units lo W) 0 - lo)) *
+                          ((hi - lo) / lat_bounds_den sh ud units lo hi W u) + lo)).
+Proof. exact lat_approx_bounds_site. Qed.
+Print Assumptions C16_total_lattice_bounds_division_site.
+Theorem C16_total_lattice_bounds_denominator_nonzero : forall c lo hi sh ud units W u,
+  accepts_lattice_constraints_obj c = true -> l_omin c = Some lo -> l_omax c = Some hi ->
+  hi - lo <= lat_bounds_den sh ud units lo hi W u /\ ~ lat_bounds_den sh ud units lo hi W u == 0.
+Proof.
+  intros c lo hi sh ud units W u H1 H2 H3.
+  split; [exact (lat_bounds_den_ge sh ud units lo hi W u)|exact (accepted_lattice_bounds_den_nonzero c lo hi sh ud units W u H1 H2 H3)].
+Qed.
+Print Assumptions C16_total_lattice_bounds_denominator_nonzero.
+Theorem C16_total_lattice_layer_is_constraints_object : forall c,
+  accepts_lattice c = true -> accepts_lattice_constraints_obj c = true.
+Proof. exact accepts_lattice_obj. Qed.
+Print Assumptions C16_total_lattice_layer_is_constraints_object.
+(* the 0 / 0 the strict test output_min < output_max excludes *)
+Theorem C16_total_lattice_bounds_equal_bounds_rejected :
+  let W : tens := fun _ => 1 in
+  lat_bounds_den [2; 1]%nat 1 1 1 1 W 0 == 0 /\
+  forall c, l_omin c = Some 1 -> l_omax c = Some 1 -> accepts_lattice_constraints_obj c = false.
+Proof. exact lat_bounds_den_zero_equal_bounds. Qed.
+Print Assumptions C16_total_lattice_bounds_equal_bounds_rejected.
+(* project_by_dykstra, joint unimodalities: `violation / sum(hyperplane ** 2)`; every hyperplane the
+   model (and the code) projects onto has a non-zero integer coefficient *)
+Theorem C16_total_lattice_joint_unimodality_norm_nonzero : forall sizes centre vertex offs terms,
+  Model.LatticeDykstra.ju_terms sizes centre vertex offs 0 = Some terms -> terms <> [] ->
+  ~ ju_norm vertex terms == 0.
+Proof. exact ju_norm_nonzero. Qed.
+Print Assumptions C16_total_lattice_joint_unimodality_norm_nonzero.
+(* simplex interpolation: gathered indices are vertex indices for clipped / in-range points
+   (= C19_lattice_simplex_indices_in_range), flat kernel positions inside the kernel *)
+Theorem C16_total_lattice_simplex_indices_in_range : forall clip sizes x,
+  Proofs.Gradients.lattice_point_ok clip sizes x ->
+  forall p, In p (Model.Gradients.simplex_sparse clip sizes x) ->
+  (0 <= fst p < Z.of_nat (Model.Gradients.num_vertices sizes))%Z.
+Proof. exact lattice_simplex_indices_in_range. Qed.
+Print Assumptions C16_total_lattice_simplex_indices_in_range.
+Theorem C16_total_lattice_simplex_is_gather_of_those_indices : forall tensor clip units sizes K u x,
+  List.length x = List.length sizes ->
+  Model.LatticeInterp.unit_fn Model.LatticeInterp.Simplex tensor clip units sizes K u x ==
+  Model.Gradients.sp_eval (Model.Gradients.simplex_sparse clip sizes x) (Proofs.LatticeInterp.gather_of units K u).
+Proof. exact lattice_simplex_is_sparse. Qed.
+Print Assumptions C16_total_lattice_simplex_is_gather_of_those_indices.
+Theorem C16_total_lattice_simplex_flat_index_in_range : forall units u n i,
+  (u < units)%nat -> (0 <= i < Z.of_nat n)%Z ->
+  (0 <= i * Z.of_nat units + Z.of_nat u < Z.of_nat (n * units))%Z.
+Proof. exact lattice_simplex_flat_index_in_range. Qed.
+Print Assumptions C16_total_lattice_simplex_flat_index_in_range.
+(* clip_inputs=False and an input <= -1: a NEGATIVE gather index (the model's nthZ returns 0; the code
+   raises InvalidArgumentError); inputs above the range keep the indices in range *)
+Theorem C16_total_lattice_simplex_unclipped_negative_refuted :
+  exists p, In p (Model.Gradients.simplex_sparse false [3; 3]%nat [-(3#2); 1#2]) /\ (fst p < 0)%Z.
+Proof. exact lattice_simplex_negative_index_unclipped. Qed.
+Print Assumptions C16_total_lattice_simplex_unclipped_negative_refuted.
+Theorem C16_total_lattice_simplex_unclipped_above_range_example :
+  forall p, In p (Model.Gradients.simplex_sparse false [3; 3]%nat [5#2; 5#2]) -> (0 <= fst p < 9)%Z.
+Proof. exact lattice_simplex_above_range_unclipped. Qed.
+Print Assumptions C16_total_lattice_simplex_unclipped_above_range_example.
+
+(* ---- CDF ---------------------------------------------------------------------- *)
+Theorem C16_total_cdf_division_sites : forall sg ex lg a zs eps nterms col l,
+  Model.CDF.qmean l = qsum l / cdf_mean_den l /\
+  Model.CDF.basis sg a zs = match a with
+                            | Model.CDF.Sigmoid => qsum (map sg zs) / cdf_mean_den (map sg zs)
+                            | _ => qsum (map Model.CDF.relu6 zs) / cdf_mean_den (map Model.CDF.relu6 zs) * (1 # 6)
+                            end /\
+  Model.CDF.geo ex lg eps nterms col = ex (qsum (map (fun v => lg (v + eps)) col) / inject_Z (Z.of_nat nterms)).
+Proof. intros. split; [apply cdf_qmean_site|]. split; [apply cdf_basis_site|apply cdf_geo_site]. Qed.
+Print Assumptions C16_total_cdf_division_sites.
+(* accepted, sparsity_factor > 0, >= 1 input: input_dim / sparsity_factor >= 1 rows to average over *)
+Theorem C16_total_cdf_reduction_denominators_nonzero : forall c,
+  accepts_cdf c = true -> (0 < d_sparsity c)%Z -> (1 <= d_dims c)%Z ->
+  Z.to_nat (d_sparsity c) <> 0%nat /\
+  (1 <= Z.to_nat (d_dims c) / Z.to_nat (d_sparsity c))%nat /\
+  ~ inject_Z (Z.of_nat (Z.to_nat (d_dims c) / Z.to_nat (d_sparsity c))) == 0 /\
+  ~ inject_Z (Z.of_nat (Z.to_nat (d_dims c))) == 0.
+Proof. exact accepted_cdf_rows. Qed.
+Print Assumptions C16_total_cdf_reduction_denominators_nonzero.
+Theorem C16_total_cdf_keypoint_mean_denominator_nonzero : forall c (f : Q -> Q) zs,
+  accepts_cdf c = true -> (1 <= d_keypoints c)%Z -> List.length zs = Z.to_nat (d_keypoints c) ->
+  ~ cdf_mean_den (map f zs) == 0.
+Proof. exact accepted_cdf_keypoints_den. Qed.
+Print Assumptions C16_total_cdf_keypoint_mean_denominator_nonzero.
+(* as is: num_keypoints = 0 (known finding D48) and an input of width 0 are accepted; the means are 0 / 0 *)
+Theorem C16_total_cdf_zero_keypoints_refuted : exists c, accepts_cdf c = true /\ d_keypoints c = 0%Z /\
+  forall (f : Q -> Q) zs, List.length zs = Z.to_nat (d_keypoints c) -> cdf_mean_den (map f zs) == 0.
+Proof. exact cdf_zero_keypoints_zero_den. Qed.
+Print Assumptions C16_total_cdf_zero_keypoints_refuted.
+Theorem C16_total_cdf_zero_inputs_refuted : exists c, accepts_cdf c = true /\ d_dims c = 0%Z /\ (1 <= d_keypoints c)%Z /\
+  forall u (m : list (list Q)), List.length m = Z.to_nat (d_dims c) -> cdf_mean_den (column u m) == 0.
+Proof. exact cdf_zero_inputs_zero_den. Qed.
+Print Assumptions C16_total_cdf_zero_inputs_refuted.
+
+(* ---- conditional PWL: the model computes the code's IEEE result at a zero length ---------- *)
+Theorem C16_total_conditional_pwl_division_guard : forall x kp len,
+  (~ len == 0 -> Model.CondPWL.wclip x kp len = qclip 0 1 ((x - kp) / len)) /\
+  (len == 0 -> Model.CondPWL.wclip x kp len = if qlt kp x then 1 else 0).
+Proof. exact condpwl_wclip_guard. Qed.
+Print Assumptions C16_total_conditional_pwl_division_guard.
+
+(* ---- CategoricalCalibration: one_hot indices ---------------------------------------------- *)
+(* in range: that bucket's weight; out of vocabulary: the code does NOT raise, the output is 0.0 *)
+Theorem C16_total_categorical_bucket_index : forall L x,
+  Model.CategoricalEval.c_units L = 1%nat ->
+  List.length (Model.CategoricalEval.c_kernel L) = Model.CategoricalEval.c_buckets L ->
+  let i := Model.CategoricalEval.replace_default L (Model.CategoricalEval.cast_int x) in
+  ((0 <= i < Z.of_nat (Model.CategoricalEval.c_buckets L))%Z ->
+     qleq (Model.CategoricalEval.cat_row L [x]) [nth 0 (nth (Z.to_nat i) (Model.CategoricalEval.c_kernel L) []) 0]) /\
+  ((i < 0 \/ Z.of_nat (Model.CategoricalEval.c_buckets L) <= i)%Z -> qleq (Model.CategoricalEval.cat_row L [x]) [0]).
+Proof. exact cat_row_units1. Qed.
+Print Assumptions C16_total_categorical_bucket_index.
+Theorem C16_total_categorical_one_hot : forall depth i col,
+  ((0 <= i < Z.of_nat depth)%Z -> List.length col = depth ->
+     Model.PWLEval.dot (Model.CategoricalEval.one_hot depth i) col == nth (Z.to_nat i) col 0) /\
+  ((i < 0 \/ Z.of_nat depth <= i)%Z -> Model.PWLEval.dot (Model.CategoricalEval.one_hot depth i) col == 0).
+Proof. intros depth i col. split; [exact (cat_one_hot_in_range depth i col)|exact (cat_one_hot_out_of_range depth i col)]. Qed.
+Print Assumptions C16_total_categorical_one_hot.
+Theorem C16_total_categorical_default_bucket_in_range : forall L d,
+  Model.CategoricalEval.c_default L = Some d -> (1 <= Model.CategoricalEval.c_buckets L)%nat ->
+  (0 <= Model.CategoricalEval.replace_default L d < Z.of_nat (Model.CategoricalEval.c_buckets L))%Z.
+Proof. exact cat_default_bucket_in_range. Qed.
+Print Assumptions C16_total_categorical_default_bucket_in_range.
+(* as is (known finding D48): num_buckets = 0 is accepted; the default bucket is index -1 *)
+Theorem C16_total_categorical_zero_buckets_refuted : exists c u, accepts_categorical_layer c u = true /\
+  Verify.c_buckets c = Some 0%Z /\
+  forall L d, Model.CategoricalEval.c_buckets L = 0%nat -> Model.CategoricalEval.c_default L = Some d ->
+              (Model.CategoricalEval.replace_default L d < 0)%Z.
+Proof. exact cat_zero_buckets_default_out_of_range. Qed.
+Print Assumptions C16_total_categorical_zero_buckets_refuted.
+
+(* ---- RTL: gather indices --------------------------------------------------------------------- *)
+Theorem C16_total_rtl_gather_indices_in_range : forall c avoid ms sh1 sh2,
+  accepts_rtl c = true -> (0 <= t_num c)%Z ->
+  (forall z, t_inc c = Some z -> (0 <= z)%Z) -> (forall z, t_unc c = Some z -> (0 <= z)%Z) ->
+  Proofs.RTLStructure.perm_oracle sh1 -> Proofs.RTLStructure.perm_oracle sh2 ->
+  let cfg := conv_rtl c avoid ms in
+  let n := List.length (Model.RTLStructure.flatten (Model.RTLStructure.c_input cfg)) in
+  n <> 0%nat /\ Z.of_nat n = rtl_n_inputs c /\
+  exists s, Model.RTLStructure.rtl_structure cfg sh1 sh2 = Some s /\
+            forall lat i, In lat (Model.RTLStructure.all_lattices s) -> In i lat -> (i < n)%nat.
+Proof. exact accepted_rtl_gather_indices_in_range. Qed.
+Print Assumptions C16_total_rtl_gather_indices_in_range.
+
+(* hypotheses are satisfiable *)
+Example C16_total_examples :
+  accepts_pwl (mkP (Some [0#1; 1#2; 2#1]) (Some (0#1)) (Some (1#1)) (Some 1%Z) (Some (-1)%Z) false true false true
+                   false false false true) = true /\
+  accepts_kfl (mkK 3 2 2 (Some [1; 0]%Z) 2 (Some (0#1)) (Some (1#1))) = true /\
+  accepts_cdf (mkCDF 5 4 2 6 true true true true true) = true /\
+  accepts_lattice_constraints_obj (mkL [3; 2]%Z (Some [1; 0]%Z) None [] [] None None None None (Some (0#1)) (Some (1#1)) true) = true /\
+  Proofs.Gradients.lattice_point_ok true [3; 3]%nat [5#2; -(7#1)].
+Proof. exact totality_examples. Qed.
+
+(* ---- further sites ------------------------------------------------------------------------------ *)
+(* Lattice bounds projection: reduce_max / reduce_min run over a non-empty vertex set (the model's
+   qmaxl [] = qminl [] = 0 is not used), and the per-unit violation table is indexed in range *)
+Theorem C16_total_lattice_bounds_reductions_nonempty : forall c W u,
+  Proofs.LatticeSpec.cfg_valid c ->
+  Model.LatticeFinalize.unit_vals (Model.LatticeFinalize.l_shape c) (Model.LatticeFinalize.l_ud c) W u <> [].
+Proof. exact lat_bounds_reductions_nonempty. Qed.
+Print Assumptions C16_total_lattice_bounds_reductions_nonempty.
+Theorem C16_total_lattice_bounds_unit_index_in_range : forall c lo hi W x,
+  valid (Model.LatticeFinalize.l_shape c) x ->
+  (nth (Model.LatticeFinalize.l_ud c) x 0 <
+     List.length (lat_bounds_maxv (Model.LatticeFinalize.l_shape c) (Model.LatticeFinalize.l_ud c) (Model.LatticeFinalize.l_units c) hi W))%nat /\
+  (nth (Model.LatticeFinalize.l_ud c) x 0 <
+     List.length (lat_bounds_minv (Model.LatticeFinalize.l_shape c) (Model.LatticeFinalize.l_ud c) (Model.LatticeFinalize.l_units c) lo W))%nat.
+Proof. exact lat_bounds_unit_index_in_range. Qed.
+Print Assumptions C16_total_lattice_bounds_unit_index_in_range.
+(* hypercube interpolation: the outer product of the per-dimension weights has prod(lattice_sizes)
+   entries, one per kernel row (the model's dot would truncate); lattice_sizes = [] (known finding D60)
+   is the degenerate case *)
+Theorem C16_total_lattice_hypercube_weights_match_kernel : forall tensor clip sizes x,
+  sizes <> [] -> List.length x = List.length sizes ->
+  List.length (Model.LatticeInterp.batch_outer
+                 (Model.LatticeInterp.weight_lists sizes (Model.LatticeInterp.hyper_weights tensor clip sizes x))) =
+  Model.LatticeInterp.prodn sizes.
+Proof. exact lattice_hypercube_no_truncation. Qed.
+Print Assumptions C16_total_lattice_hypercube_weights_match_kernel.
+(* as is: CDF(units=-2, sparsity_factor=-1) passes every build check; call() raises InvalidArgumentError *)
+Theorem C16_total_cdf_negative_sparsity_refuted : exists c,
+  accepts_cdf c = true /\ (d_sparsity c < 0)%Z /\ (d_units c < 0)%Z.
+Proof. exact cdf_negative_sparsity_accepted. Qed.
+Print Assumptions C16_total_cdf_negative_sparsity_refuted.
+(* as is: a KroneckerFactoredLattice over an input of width 0 is accepted; `1.0 / dims` is a ZeroDivisionError *)
+Theorem C16_total_kfl_zero_dims_refuted : exists c, accepts_kfl c = true /\ k_dims c = 0%Z /\ (1 <= k_terms c)%Z /\
+  k_omin c <> None /\ k_omax c <> None.
+Proof. exact kfl_zero_dims_accepted. Qed.
+Print Assumptions C16_total_kfl_zero_dims_refuted.
+
+(* ---- initialisers run by build() ------------------------------------------------------------------ *)
+(* lattice linear_initializer: `dim_range = (output_max - output_min) / num_constraint_dims` (an
+   unconstrained lattice counts all its dimensions) and _linspace's `i / (num - 1.0)` behind the code's
+   own `if num == 1` *)
+Theorem C16_total_lattice_init_division_sites : forall sizes omin omax monos unis start stop num k,
+  Model.LatticeInit.lin_dim_range sizes omin omax monos unis =
+    (omax - omin) / Model.LatticeInit.qnat (Model.LatticeInit.lin_num_constraint_dims sizes monos unis) /\
+  (num <> 1%nat ->
+   Model.LatticeInit.linspace_at start stop num k =
+     Qred (start + (stop - start) * Model.LatticeInit.qnat k / (Model.LatticeInit.qnat num - 1))).
+Proof. intros. split; [apply lattice_init_dim_range_site|apply lattice_init_linspace_site]. Qed.
+Print Assumptions C16_total_lattice_init_division_sites.
+Theorem C16_total_lattice_init_denominators_nonzero : forall sizes monos unis num,
+  (sizes <> [] -> ~ Model.LatticeInit.qnat (Model.LatticeInit.lin_num_constraint_dims sizes monos unis) == 0) /\
+  (num <> 1%nat -> ~ Model.LatticeInit.qnat num - 1 == 0).
+Proof.
+  intros sizes monos unis num.
+  split; [exact (lattice_init_dim_range_den_nonzero sizes monos unis)|exact (lattice_init_linspace_den_nonzero num)].
+Qed.
+Print Assumptions C16_total_lattice_init_denominators_nonzero.
+(* as is (known finding D60): lattice_sizes = [] is accepted; num_constraint_dims = 0: ZeroDivisionError at build *)
+Theorem C16_total_lattice_init_empty_sizes_refuted : exists c, accepts_lattice_layer c = true /\ l_sizes c = [] /\
+  Model.LatticeInit.qnat (Model.LatticeInit.lin_num_constraint_dims []
+     (Model.LatticeInit.zeros_if_none 0 None) (Model.LatticeInit.zeros_if_none 0 None)) == 0.
+Proof. exact lattice_init_empty_sizes_accepted. Qed.
+Print Assumptions C16_total_lattice_init_empty_sizes_refuted.
+(* PWL linear_initializer: `/ num_pieces` and `/ reduce_sum(lengths)` *)
+Theorem C16_total_pwl_init_division_site : forall num_keypoints omin omax kps,
+  Model.PWLInit.pwl_init_heights num_keypoints omin omax kps =
+  match kps with
+  | None => repeat (Qred ((omax - omin) / Model.PWLProject.qn (num_keypoints - 1))) (num_keypoints - 1)
+  | Some k => map (fun l => Qred (l * ((omax - omin) / qsum (Model.PWLInit.kp_lengths k)))) (Model.PWLInit.kp_lengths k)
+  end.
+Proof. exact pwl_init_heights_site. Qed.
+Print Assumptions C16_total_pwl_init_division_site.
+Theorem C16_total_pwl_init_denominators_nonzero : forall c ks,
+  accepts_pwl c = true -> p_keypoints c = Some ks ->
+  ~ Model.PWLProject.qn (List.length ks - 1) == 0 /\ ~ qsum (Model.PWLInit.kp_lengths ks) == 0.
+Proof. exact accepted_pwl_init_dens_nonzero. Qed.
+Print Assumptions C16_total_pwl_init_denominators_nonzero.
